@@ -607,8 +607,9 @@ def replay(case, conc, cand=None):
 
 
 META = {
-    "bounds": {"quick": {"N": 4, "G": 2, "key_chunks": 2, "sequences": "length 2 over 7 x 6 operations"},
-               "thorough": {"N": 5, "G": 2, "key_chunks": "<= 3", "sequences": "length 2 (all) and 27 of length 3"}},
+    "glue": ['groupby_lib/groupby/core.py::__init__', 'groupby_lib/groupby/core.py::_apply_gb_func_across_chunked_group_keys', 'groupby_lib/groupby/core.py::_apply_gb_reduction', 'groupby_lib/groupby/core.py::_apply_rolling_or_cumulative_func', 'groupby_lib/groupby/core.py::_build_arg_dict_for_function', 'groupby_lib/groupby/core.py::_find_first_chunk_in_slice', 'groupby_lib/groupby/core.py::_group_sort_indexer', 'groupby_lib/groupby/core.py::_max_threads_for_numba', 'groupby_lib/groupby/core.py::_resolve_mask_argument_into_chunks', 'groupby_lib/groupby/core.py::_unify_for_positional_mask', 'groupby_lib/groupby/core.py::_unify_group_key_chunks', 'groupby_lib/groupby/core.py::apply', 'groupby_lib/groupby/core.py::count_ikey', 'groupby_lib/groupby/core.py::ema', 'groupby_lib/groupby/core.py::head', 'groupby_lib/util.py::array_split_with_chunk_handling'],
+    "bounds": {"quick": {"N": 4, "G": 2, "key_chunks": 2, "sequences": "length 2 over 7 x 6 operations on symbolic states; 8 x 8 operations (incl. apply, head, group-sorted indexer, ema) on a quarter of the enumerated code sequences"},
+               "thorough": {"N": 5, "G": 2, "key_chunks": "<= 3", "sequences": "length 2 (all) and 27 of length 3 on symbolic states; 8 x 8 operations on every code sequence of N=4,G=2 in all three representations"}},
     "enumerated": ["key representation and chunk layout", "operation sequences", "for GroupBy.ema: every chunk-local code sequence and pointer table"],
     "symbolic": ["chunk-local codes, pointer tables", "two independent value arrays and masks (one per call)"],
     "assumptions": ["abstraction alpha(state) = global code per row; (1) unification preserves alpha, (2) every observer returns, in every representation, "
